@@ -214,6 +214,8 @@ Truth(x) ==
       [] x.t = "num"   -> IF x.n # 0 THEN "t" ELSE "f"
       [] x.t = "blank" -> "f"
       [] x.t = "date"  -> "t"
+      \* a double that is no small rational travels as its decimal spelling: zero has a rational form, so this one is not zero
+      [] x.t = "float" -> "t"
       [] OTHER         -> "open"
 
 (* ---------------------------------------------------------------------- *)
